@@ -205,11 +205,13 @@ def Tables.vsAns (t : Tables) (o : Oid) (u : Name) : Ans :=
       | none => (lookupS t.vs "*:*").getD (.int 1)
 
 /-- `cfg <flag>..` line: which verification master / simul_efun object the case runs under
-    (nobb: no get_bb_uid(); noroot: no get_root_uid(); simul: the simul_efun object /c20/simul is actor `se`) -/
+    (nobb: no get_bb_uid(); noroot: no get_root_uid(); novb: no valid_bind(); simul: the simul_efun object /c20/simul is
+    actor `se`) -/
 def applyCfgFlag (c : Cfg) (f : String) : Option Cfg :=
   if f == "nobb" then some { c with bb := none }
   else if f == "noroot" then some { c with noRoot := true }
   else if f == "simul" then some { c with simul := true }
+  else if f == "novb" then some { c with noVb := true }
   else none
 
 def parseCfgFlags (fs : List String) : Option Cfg :=
